@@ -24,7 +24,9 @@ META = {
     "note": "Trusted: TLC, the transcription of ISO 32000-1 7.2-7.3, 7.8.2, 8.9.7 in Syntax.tla/Content.tla (checked against the "
             "Producer by TLC), the harness projection (wire.rs) incl. its exact-decimal f32 intervals. Domain: operators over letters, "
             "'*', ''', '\"' that do not begin with true/false/null and are not BI/ID/EI; operands are direct objects without references "
-            "(also nested), finite reals; inline images unfiltered with colour space DeviceGray/RGB/CMYK or G/RGB/CMYK, BPC 1,2,4,8. "
+            "(also nested), finite reals; inline images unfiltered with colour space DeviceGray/RGB/CMYK or G/RGB/CMYK, BPC 1,2,4,8, with or without the "
+            "optional entries ImageMask false, Interpolate, Decode (abbreviated or full keys, any order). Stencil masks (ImageMask true) "
+            "have no colour space: they are read by the spec (one bit per sample) and tried, but what lopdf does with them is a note. "
             "Deviations of lopdf's *decoder* on content it did not write (FF/NUL as white-space, raw CR in literal strings, operators "
             "with digits) are outside the statement and reported as notes, not violations. Random inputs are sampled from VERIF_SEED; "
             "the byte-pair sweep is exhaustive in the thorough tier.",
@@ -61,6 +63,16 @@ def is_inline_op(op):
     return bytes(op["op"]) == b"BI" and len(op["args"]) == 1 and op["args"][0].get("k") == "stream"
 
 
+OPT_KEYS = {b"IM": "IM", b"ImageMask": "IM", b"I": "I", b"Interpolate": "I", b"D": "D", b"Decode": "D"}
+
+
+def is_mask_op(op):
+    """an inline image with ImageMask true (a stencil mask: no colour space, outside the quantifier)"""
+    if not is_inline_op(op):
+        return False
+    return any(bytes(p[0]) in (b"IM", b"ImageMask") and p[1].get("k") == "bool" and p[1].get("v") is True for p in op["args"][0]["v"])
+
+
 def ops_in_domain(ops):
     """clause 1 of the property: operators of the documented alphabet, operands direct objects"""
     for op in ops:
@@ -73,27 +85,10 @@ def ops_in_domain(ops):
     return True
 
 
-def paren_depth(b):
-    d = m = 0
-    for x in b:
-        if x == 40:
-            d += 1
-            m = max(m, d)
-        elif x == 41 and d > 0:
-            d -= 1
-    return m
-
-
-def deep_parens(ops):
-    return any(o.get("k") == "str" and paren_depth(o["v"]) > 100 for op in ops for a in op["args"] for o in walk(a))
-
-
 def rt_signature(enc_rec, enc_v, dec_v):
     """narrow signature of decode(encode(ops)) != ops for in-domain ops"""
     ops = enc_rec["ops"]
     rd = dec_v["rd"]
-    if deep_parens(ops) and enc_v["v"] == "ok":
-        return "C14:string.paren-nesting>100"
     side = "decode" if enc_v["v"] == "ok" else "encode"
     what = rd["v"]
     if what == "operand":
@@ -138,6 +133,9 @@ class Eval:
         self.kinds_seen = collections.Counter()
         self.classes = collections.Counter()
         self.inline_combos = set()
+        self.opt_keys_tried = collections.Counter()
+        self.masks_tried = 0
+        self.first_keys = set()
 
     def note(self, key, sample):
         self.notes[key] += 1
@@ -150,6 +148,9 @@ class Eval:
         inline = any(is_inline_op(o) for o in ops)
         cls = enc["cls"]
         probe = cls.startswith("probe.")
+        if any(is_mask_op(o) for o in ops):
+            # stencil masks have no colour space: outside "every supported colour space", observations only
+            probe, cls = True, "inline.mask"
         indom = ops_in_domain(ops)
         key = json.dumps(enc["bytes"]) if enc["res"] == "ok" else json.dumps(ops)
         chk.case(key if ops else None)
@@ -221,7 +222,7 @@ class Eval:
                     why = "UNEXPLAINED:" + why
                 self.note("producer-content:decode:" + why, detail)
             return
-        if cls == "inline":
+        if cls in ("inline", "inline.mask"):
             self.inline_decode(given, dec, dec_v, detail, producer=False)
 
     def inline_decode(self, given, dec, dec_v, detail, producer):
@@ -232,21 +233,36 @@ class Eval:
         if img.get("n", 0) < 1:
             raise vlib.ToolError("no inline image in the strict reading of an inline case: %r" % bytes(given["bytes"])[:200])
         cs, bpc, first, idws = bytes(img["cs"]), img["bpc"], img["first"], img["idws"]
+        keys = [bytes(k) for k in img["keys"]]
+        opt = sorted({OPT_KEYS[k] for k in keys if k in OPT_KEYS})
+        if img["mask"]:
+            # a stencil mask (ImageMask true, 8.9.6.2) is a valid inline image but has no colour space at all: it is
+            # not among "valid inline images of every supported colour space"; what lopdf does with it is an observation
+            self.masks_tried += 1
+            self.note("inline:imagemask:decode:" + dec_v["v"], detail)
+            return
         self.inline_combos.add((cs, bpc))
+        for k in keys:
+            if k in OPT_KEYS:
+                self.opt_keys_tried[k.decode()] += 1
+        self.first_keys.add(tuple(keys))
         chk.case(json.dumps(given["bytes"]))
         if ok:
             return
+        suffix = "[" + "+".join(opt) + "]" if opt else ""
         if idws not in WS4 or img["wsbefore"]:
             # FF / NUL as white-space: a decoder limitation outside the statement
             self.note("inline:decode:ff-nul-whitespace:" + dec_v["v"], detail)
-        elif cs == b"G" and dec_v["v"] == "decode-failed":
-            chk.violation("C14:inline.abbrev", detail)
-        elif first in WS4 and dec_v["v"] in ("decode-failed", "operand"):
-            chk.violation("C14:inline.data-leading-ws", detail)
         elif dec_v["v"] == "lit-raw-eol-kept":
             self.note("producer-content:decode:lit-raw-eol-kept", detail)
         else:
-            chk.violation("C14:inline.decode." + dec_v["v"], detail)
+            # optional entries spelled out with default / neutral values (ImageMask false, Interpolate, Decode) are part
+            # of the signature: they must not change how the image is read
+            # (the classifiers of the repaired findings C14:inline.abbrev and C14:inline.data-leading-ws were removed with
+            # the repairs, DESIGN 2.9; the facts they used stay in the detail for triage)
+            detail["image_facts"] = {"cs": cs.decode("latin-1"), "bpc": bpc, "first_data_byte": first, "byte_after_ID": idws,
+                                     "keys": [k.decode("latin-1") for k in keys]}
+            chk.violation("C14:inline.decode." + dec_v["v"] + suffix, detail)
 
 
 def evaluate(ev, recs, verdicts, origin):
@@ -338,6 +354,18 @@ def negative_controls():
     o4 = cp(img_ops)
     o4[0]["args"][0]["w"] = [69, 73, 32]
     controls.append(("inline-data-shifted", [giv(img_bytes), dec(o4)], lambda vs: not vs[1]["v"].startswith("ok")))
+    # 9: an explicit /IM false must not turn the image into a 1-bit mask: conforming records accepted, a failed decode rejected
+    imf_bytes = B("BI /IM false /W 4 /H 1 /BPC 8 /CS /G ID abcd EI")
+    imf_d = [[B("BPC"), {"k": "int", "neg": False, "v": [8]}], [B("CS"), {"k": "name", "v": B("G")}],
+             [B("H"), {"k": "int", "neg": False, "v": [1]}], [B("IM"), {"k": "bool", "v": False}],
+             [B("Length"), {"k": "int", "neg": False, "v": [4]}], [B("W"), {"k": "int", "neg": False, "v": [4]}]]
+    imf_ops = [{"op": B("BI"), "args": [{"k": "stream", "v": imf_d, "w": B("abcd")}]}]
+    controls.append(("inline-imfalse-positive", [giv(imf_bytes), dec(imf_ops)], lambda vs: all(v["v"].startswith("ok") for v in vs)))
+    controls.append(("inline-imfalse-decode-failed", [giv(imf_bytes), {"ev": "Decode", "cls": "neg", "case": 0, "res": "err:Parse(InvalidContentStream)", "ops": []}],
+                     lambda vs: vs[0]["v"] == "ok" and vs[1]["v"] == "decode-failed"))
+    o5 = cp(imf_ops)
+    o5[0]["args"][0]["w"] = B("a")
+    controls.append(("inline-imfalse-read-as-mask", [giv(imf_bytes), dec(o5)], lambda vs: not vs[1]["v"].startswith("ok")))
     # 8: inline image written back as a stream object
     sb = B("<</BPC 8/CS/RGB/H 1/Length 3/W 1>>stream\n EI\nendstream BI\nQ")
     controls.append(("inline-written-as-stream", [enc(img_ops, sb), dec(img_ops)], lambda vs: not vs[0]["v"].startswith("ok")))
@@ -346,7 +374,7 @@ def negative_controls():
         vs, _, _ = vlib.validate_trace("Trace_Content.tla", "Trace_Content.cfg", recs, "c14-neg-" + name)
         if len(vs) != len(recs) or not pred(vs):
             raise vlib.ToolError("negative control '%s' failed: %s" % (name, [(v["v"], v["rt"]) for v in vs]))
-        if name != "positive":
+        if not name.endswith("positive"):
             rejected += 1
     return rejected
 
@@ -365,10 +393,11 @@ def run(tier):
     vlib.build_harness("c14")       # once, before the worker threads below call run_bin concurrently
 
     # ---- (M) Producer vs StrictReader in content mode, exhaustive over the test universes
-    cfgs = ["MC_Content_adj.cfg", "MC_Content_seq2s.cfg", "MC_Content_inlq.cfg"] if quick else [
+    cfgs = ["MC_Content_adj.cfg", "MC_Content_seq2s.cfg", "MC_Content_inlq.cfg", "MC_Content_inloq.cfg"] if quick else [
         "MC_Content_adj.cfg", "MC_Content_adj_all.cfg", "MC_Content_adjc.cfg", "MC_Content_adj2.cfg", "MC_Content_strs.cfg",
-        "MC_Content_seq2.cfg", "MC_Content_seq3.cfg", "MC_Content_inlq.cfg", "MC_Content_inlt.cfg"]
-    with ThreadPoolExecutor(max_workers=3 if quick else 2) as ex:
+        "MC_Content_seq2.cfg", "MC_Content_seq3.cfg", "MC_Content_inlq.cfg", "MC_Content_inloq.cfg", "MC_Content_inlot.cfg",
+        "MC_Content_inlt.cfg"]
+    with ThreadPoolExecutor(max_workers=4 if quick else 2) as ex:
         for r in ex.map(lambda c: mc(c, tier), cfgs):
             chk.add_tlc(r)
     chk.extra["mc_universes"] = [c[len("MC_Content_"):-4] for c in cfgs]
@@ -437,6 +466,16 @@ def run(tier):
     want_combos = {(cs, b) for cs in (b"G", b"DeviceGray", b"RGB", b"DeviceRGB", b"CMYK", b"DeviceCMYK") for b in (1, 2, 4, 8)}
     if not want_combos <= ev.inline_combos:
         raise vlib.ToolError("vacuous: inline colour space x BPC combinations never tried: %s" % sorted(want_combos - ev.inline_combos))
+    missing = [k for k in ("IM", "ImageMask", "I", "Interpolate", "D", "Decode") if ev.opt_keys_tried[k] == 0]
+    if missing:
+        raise vlib.ToolError("vacuous: no in-domain inline image spells out the optional entry %s" % missing)
+    if ev.masks_tried == 0:
+        raise vlib.ToolError("vacuous: no stencil mask (ImageMask true) tried")
+    if len(ev.first_keys) < 12:
+        raise vlib.ToolError("vacuous: only %d distinct inline-image entry sets" % len(ev.first_keys))
+    chk.extra["inline_optional_entries_tried"] = dict(ev.opt_keys_tried)
+    chk.extra["inline_entry_key_sets"] = len(ev.first_keys)
+    chk.extra["stencil_masks_tried"] = ev.masks_tried
     us = collections.Counter(c.get("u") for c in produced)
     if us["file"] == 0 or us["mix"] == 0 or not any(c.get("inline") for c in produced):
         raise vlib.ToolError("vacuous: Producer universes missing: %s" % dict(us))
